@@ -3,11 +3,15 @@
     Part 1 (all behaviours of text/template and regexp): the TemplatedRegexp protocol — a pattern that load-time
     validation accepted is built by the same function and expanded by a total MustExpand, for every rule.
     Part 2 (finite, tables regenerated from the Go AST every run): every site where an error is dropped after load
-    or a Must* helper is used is accounted for in the reviewed table — validated at load through the same function,
-    harmless, rule data, ... — or listed as an open known finding.
-    Three rows were crash sites when this check was built (link uri, match regexps validated bare, promql/regexp label
-    name); they were repaired (457aa6b, 4986535, 4008951) and the full statement now holds.  The runtime remainder (that
-    the harmless classes really are harmless, and crashes outside these sites) is covered by execution, not by proof. *)
+    or a Must* helper is used is accounted for in the reviewed table — validated at load through the same function on
+    the same field with compatible emptiness guards on both sides (checked mechanically against the generated
+    validator and guard tables), or a reviewed harmless class.  There is no "known crash" class: the rows that were
+    crash sites while this check was built (link uri, match regexps validated bare, promql/regexp label name,
+    range_query max validated only when non-empty, --disabled flag) were repaired in /repo (457aa6b, 4986535, 4008951,
+    0b2762d, 72c92b8), no finding is open, and the FULL statement is what is proved.
+    Part 3 (finite, generated): load-time validation reaches every block of the configuration schema.
+    The runtime remainder (that the harmless classes really are harmless, and crashes outside these sites) is covered by
+    execution, not by proof. *)
 From Coq Require Import List String Ascii Bool.
 From PintV Require Import Common.Bytes Gen.Tables Gen.C18 Model.TemplatedRegexp Model.TemplatedRegexpSites
                           Proofs.C18_template Proofs.C18_sites.
@@ -79,11 +83,25 @@ Print Assumptions C18_prefix_protocol_refuted.
 (* ---------------------------------------------------------------------------------------------- *)
 (** * Part 2 — dropped-error sites of the current source *)
 
-(** Every site of internal/config, internal/checks and cmd/pint where an error is dropped or a Must* helper gets a
-    non-constant argument has a reviewed disposition; [ValidatedSame]/[ValidatedWrapped] dispositions are backed by a
-    call in a validate() method of the CURRENT source (same function or its Must wrapper, same field, compatible
-    guard); no reviewed row is stale; the Must wrappers wrap the functions the validators call; matchRegex
-    and validateMatchRegex compile the same anchored expression (fix 4986535). *)
+(** FULL statement.  Every site of internal/config, internal/checks and cmd/pint where an error is dropped or a Must*
+    helper gets a non-constant argument ([all_sites]: regenerated from the Go AST on every run, so a NEW site without
+    a reviewed row breaks this theorem) has a reviewed disposition, and what the disposition claims holds of the
+    CURRENT source:
+    - [ValidatedSame]: a validate() method calls the same function (or the function its Must wrapper wraps) on the
+      same field and returns its error; that call is unconditional, or it is under `F != ""` and EVERY occurrence of
+      the use site is under `F != ""` for the same field F;
+    - [ValidatedDefaulted]: the validator call exists (an empty value is replaced by a default before use: review);
+    - [ValidatedWrapped]: an unconditional validator call exists on the bare pattern;
+    - the remaining classes (zero value, rule data, constant, harmless, helper body, CLI flag) are review judgements
+      exercised by the binary-level runs.
+    There is no crash class: [disposition] has no constructor for one. *)
+Theorem C18_every_dropped_error_is_validated :
+  forall s, In s all_sites -> exists d, disposition_of s = Some d /\ disposition_holds s d.
+Proof. intros s Hin. apply site_ok_spec. exact (proj1 (forallb_forall _ _) all_sites_accounted s Hin). Qed.
+Print Assumptions C18_every_dropped_error_is_validated.
+
+(** The reviewed table itself is in step with the source: no row is stale; the Must wrappers wrap the functions the
+    validators call; matchRegex and validateMatchRegex compile the same anchored expression (fix 4986535). *)
 Theorem C18_every_dropped_error_is_reviewed :
   (forall s, In s all_sites -> site_ok s = true) /\
   (forall kd, In kd reviewed -> row_is_live kd = true) /\
@@ -98,78 +116,51 @@ Proof.
 Qed.
 Print Assumptions C18_every_dropped_error_is_reviewed.
 
-(** what "accounted for" gives for the validated classes *)
-Theorem C18_validated_sites_have_validators : forall s, In s all_sites ->
-  exists d, disposition_of s = Some d /\
-    match d with
-    | ValidatedSame vf vc va g =>
-        callee_compatible (ds_callee s) vc = true /\
-        exists v, In v validators /\ v_func v = vf /\ v_callee v = vc /\ v_arg v = va /\ (g = false -> v_guard v = "")
-    | ValidatedWrapped vf vc va _ =>
-        exists v, In v validators /\ v_func v = vf /\ v_callee v = vc /\ v_arg v = va /\ v_guard v = ""
-    | _ => True
-    end.
-Proof. intros s Hin. apply site_ok_spec. exact (proj1 (forallb_forall _ _) all_sites_accounted s Hin). Qed.
-Print Assumptions C18_validated_sites_have_validators.
+(** The guard check has teeth: the two rows the review keeps in the zero-value class because they are validated only
+    when non-empty but used unconditionally (cost.maxEvaluationDuration, report.severity — the shape of the repaired
+    range_query.max defect 0b2762d) are REJECTED as [ValidatedSame] rows by the mechanical check, while the
+    corresponding guarded use (alerts.range) is accepted. *)
+Theorem C18_guard_check_rejects_unguarded_use :
+  validator_covers {| ds_file := "internal/config/parsed_rule.go"; ds_func := "parseRule"; ds_kind := "dropped";
+                      ds_callee := "parseDuration"; ds_args := "rule.Cost.MaxEvaluationDuration" |}
+                   "CostSettings.validate" "parseDuration" "cs.MaxEvaluationDuration" = false /\
+  validator_covers {| ds_file := "internal/config/report.go"; ds_func := "getSeverity"; ds_kind := "dropped";
+                      ds_callee := "checks.ParseSeverity"; ds_args := "rs.Severity" |}
+                   "ReportSettings.validate" "checks.ParseSeverity" "rs.Severity" = false /\
+  validator_covers {| ds_file := "internal/config/parsed_rule.go"; ds_func := "parseRule"; ds_kind := "dropped";
+                      ds_callee := "parseDuration"; ds_args := "rule.Alerts.Range" |}
+                   "AlertsSettings.validate" "parseDuration" "as.Range" = true /\
+  has_validator "CostSettings.validate" "parseDuration" "cs.MaxEvaluationDuration" false = true /\
+  has_validator "ReportSettings.validate" "checks.ParseSeverity" "rs.Severity" false = true.
+Proof. vm_compute. repeat split. Qed.
+Print Assumptions C18_guard_check_rejects_unguarded_use.
 
-(** FULL statement: "no reviewed site is a crash site".  It is stated relative to the list of OPEN known findings
-    [known_crash_findings] (Proofs/C18_sites.v, kept in step with known_findings.d/C18.json):
-      - PARTIAL: a site classified as a crash site belongs to one of the open findings, and the crash rows are exactly them;
-      - when the list is empty the full statement follows (C18_every_dropped_error_is_validated_when_no_open_finding);
-      - while it is not empty the full statement is refuted by the row itself.
-    History: link uri (457aa6b), match regexps validated bare (4986535), promql/regexp label name (4008951) were such rows
-    and range_query { max = "" } (0b2762d; validated only when non-empty but parsed unguarded: a check without limit and
-    without server whose String() dereferences nil) were such rows and are repaired; none is open now, so
-    [C18_every_dropped_error_is_validated] below is the full statement. *)
-Theorem C18_every_dropped_error_is_validated_partial : forall s, In s all_sites -> is_crash s = true ->
-  exists f, disposition_of s = Some (CrashKnown f) /\ In f known_crash_findings.
+(* ---------------------------------------------------------------------------------------------- *)
+(** * Part 3 — load-time validation reaches every block of the configuration schema
+
+    For every `hcl:"<name>,block"` field of every struct of internal/config (35 in the current source; regenerated, so
+    a NEW block breaks this theorem until its parent validates it): the block's type has a validate method, the
+    parent's validate method (config.Load for the root) calls it on that field — for every element when the field
+    is a list — and returns its error; and the parent is itself reachable from the root through such fields. *)
+Theorem C18_validation_reaches_every_block : forall b, In b config_blocks ->
+  block_reachable b = true /\
+  In (cb_type b) validate_methods /\
+  exists c, In c validate_calls /\ vc_owner c = cb_struct b /\ vc_field c = cb_field b /\
+            vc_func c = validate_func_of (cb_struct b) /\ vc_error_returned c = true.
 Proof.
-  intros s Hin Hc. unfold is_crash in Hc. destruct (disposition_of s) as [d|] eqn:D; [|discriminate].
-  destruct d; try discriminate. exists finding. split; [reflexivity|].
-  rewrite <- crash_rows_exactly. unfold crash_findings.
-  apply in_flat_map. exists s. split; [exact Hin|]. rewrite D. left. reflexivity.
+  intros b Hin. split.
+  - exact (proj1 (forallb_forall _ _) all_blocks_reachable b Hin).
+  - apply block_validated_spec. exact (proj1 (forallb_forall _ _) all_blocks_validated b Hin).
 Qed.
-Print Assumptions C18_every_dropped_error_is_validated_partial.
+Print Assumptions C18_validation_reaches_every_block.
 
-Theorem C18_crash_rows_are_exactly_the_open_findings : crash_findings = known_crash_findings.
-Proof. exact crash_rows_exactly. Qed.
-Print Assumptions C18_crash_rows_are_exactly_the_open_findings.
-
-Theorem C18_every_dropped_error_is_validated_when_no_open_finding :
-  known_crash_findings = [] ->
-  forall s, In s all_sites -> exists d, disposition_of s = Some d /\ (forall f, d <> CrashKnown f).
-Proof.
-  intros Hnone s Hin. pose proof (proj1 (forallb_forall _ _) all_sites_accounted s Hin) as Hok.
-  unfold site_ok in Hok. destruct (disposition_of s) as [d|] eqn:D; [|discriminate].
-  exists d. split; [reflexivity|]. intros f E. subst d.
-  assert (Hc : is_crash s = true) by (unfold is_crash; rewrite D; reflexivity).
-  destruct (C18_every_dropped_error_is_validated_partial s Hin Hc) as [f' [_ Hf]]. rewrite Hnone in Hf. exact Hf.
-Qed.
-Print Assumptions C18_every_dropped_error_is_validated_when_no_open_finding.
-
-(** no finding is open in the current source: the full statement *)
-Theorem C18_every_dropped_error_is_validated :
-  forall s, In s all_sites -> exists d, disposition_of s = Some d /\ (forall f, d <> CrashKnown f).
-Proof. exact (C18_every_dropped_error_is_validated_when_no_open_finding eq_refl). Qed.
-Print Assumptions C18_every_dropped_error_is_validated.
-
-(** the full statement is false while a crash row exists *)
-Theorem C18_every_dropped_error_is_validated_refuted :
-  known_crash_findings <> [] -> exists s, In s all_sites /\ is_crash s = true.
-Proof.
-  intro Hne. destruct (existsb is_crash all_sites) eqn:E.
-  - apply existsb_exists. exact E.
-  - exfalso. apply Hne. rewrite <- crash_rows_exactly. unfold crash_findings.
-    assert (F : forall l, existsb is_crash l = false ->
-              flat_map (fun s => match disposition_of s with Some (CrashKnown f) => [f] | _ => [] end) l = []).
-    { induction l as [|x l IH]; intro H; simpl; [reflexivity|]. simpl in H. apply orb_false_iff in H. destruct H as [Hx Hl].
-      rewrite (IH Hl). unfold is_crash in Hx. destruct (disposition_of x) as [[]|]; try reflexivity. discriminate. }
-    exact (F all_sites E).
-Qed.
-Print Assumptions C18_every_dropped_error_is_validated_refuted.
-
-(** Non-vacuity: the tables are populated and contain validated rows. *)
+(** Non-vacuity: the tables are populated, contain validated rows of every mechanically checked kind, and the schema
+    contains the rule-level blocks the property talks about. *)
 Example C18_nonvacuous :
   Nat.leb 50 (List.length all_sites) = true /\ Nat.leb 40 (List.length validators) = true /\
-  existsb (fun s => match disposition_of s with Some (ValidatedSame _ _ _ _) => true | _ => false end) all_sites = true.
+  Nat.leb 30 (List.length config_blocks) = true /\ Nat.leb 80 (List.length site_guards) = true /\
+  existsb (fun s => match disposition_of s with Some (ValidatedSame _ _ _) => negb (match guards_of s with [] => true | _ => false end) | _ => false end) all_sites = true /\
+  existsb (fun s => match disposition_of s with Some (ValidatedSame _ _ _) => match guards_of s with [""] => true | _ => false end | _ => false end) all_sites = true /\
+  existsb (fun b => String.eqb (cb_struct b) "Rule" && String.eqb (cb_hcl b) "annotation") config_blocks = true /\
+  existsb (fun b => String.eqb (cb_struct b) "Match" && String.eqb (cb_hcl b) "label") config_blocks = true.
 Proof. vm_compute. repeat split. Qed.
